@@ -25,7 +25,6 @@ import (
 	"strings"
 	"sync"
 	"testing"
-	"testing/synctest"
 	"time"
 )
 
@@ -239,20 +238,6 @@ func (c *C) Cap(reason string) {
 
 // Thorough reports whether the thorough tier is requested.
 func (c *C) Thorough() bool { return c.Tier == "thorough" }
-
-// Bubble runs f inside a synctest bubble in a sub-test. It returns the recovered panic of the
-// bubble's own goroutine (including synctest's "blocked goroutines remain" at the end).
-func (c *C) Bubble(f func()) (rec interface{}) {
-	c.LastBubbleFailed = !c.T.Run("b", func(t *testing.T) {
-		defer func() {
-			if r := recover(); r != nil {
-				rec = r
-			}
-		}()
-		synctest.Test(t, func(t *testing.T) { f() })
-	})
-	return rec
-}
 
 // IsLeakPanic tells whether a recovered bubble panic is synctest complaining about goroutines that
 // are still blocked when the bubble's main function returns.
